@@ -1,6 +1,7 @@
 import NiftyVerif.Model.LinOpsProto
 import NiftyVerif.Model.Response
 import NiftyVerif.Model.ResponseLos
+import NiftyVerif.Model.NftProto
 open Lean NiftyVerif NiftyVerif.Proto NiftyVerif.Coo NiftyVerif.LinOps NiftyVerif.LinOpsProto NiftyVerif.Response
 open NiftyVerif.ResponseLos
 
@@ -13,6 +14,8 @@ open NiftyVerif.ResponseLos
     "trav" = transcription of `_comp_traverse` (`[[pixel, Δt],…]`), "seg" = independent model `losSeg` on the same shrunk
     parameter interval, "generic" = hypothesis of the refinement theorem, "clip" = `clipT` agrees with `clipBox`;
     "init" = the COO triples of `LOSResponse.__init__` (or "ValueError").
+    {"cls":"NftLattice","M":…,"shape":[…],"a":[[…]×P],"x":[[re,im]×P],"y":[[re,im]×R]}  → exponent table and the coefficient
+    lists (polynomials in ω = e^{2πi/M}) of E·x and Eᴴ·y — see Model/NftProto.lean.
 -/
 
 def ratLists? (j : Json) (k : String) : Option (List (List Rat)) := (field? j k).bind (listOf? ratList?)
@@ -47,6 +50,9 @@ def losExtra (eps : Rat) (shape : List Nat) (dist : List Rat) (st en : List (Lis
   [("los", Json.arr lines.toArray), ("init", init)]
 
 def handle35 (j : Json) : Json :=
+  match NiftyVerif.Nft.handleNft j with             -- "cls":"NftLattice" (Model/Nft.lean: exact lattice Fourier sums)
+  | some o => o
+  | none =>
   match fStr? j "cls" with
   | some "LinearInterpolator" =>
     match fNatList? j "shape", fRatList? j "dist", ratLists? j "points" with
